@@ -4,6 +4,7 @@ import VaxisModel.Model.TextInput
 import VaxisModel.Model.TextInputCells
 import VaxisModel.Model.TextFieldCl
 import VaxisModel.Model.EdGen
+import VaxisModel.Spec.Uax29
 import VaxisModel.Model.TextInputCl
 import VaxisModel.Spec.Editor
 import VaxisModel.Spec.EditorView
@@ -15,6 +16,7 @@ namespace VaxisModel.Driver.C17
 open VaxisModel.Driver
 open VaxisModel.Model
 open VaxisModel.Spec.Editor (Ed Op Callback)
+open VaxisModel.Spec.Uax29 (clUax)
 
 structure St where
   kind : String := ""
@@ -273,35 +275,6 @@ def stepTI (s : St) (op : List String) (impl : String) : St × String :=
 matter for the harness atoms (GB6–8 Hangul jamo, GB9 Extend/ZWJ, GB11 emoji ZWJ sequences, GB12/13
 regional-indicator pairs) over the class of each atom given in the case header.  It is compared with
 the real uniseg on every op (the `v=` field of the implementation is uniseg's segmentation). -/
-
-structure SegSt where
-  cur : List Nat := []           -- current cluster, reversed
-  done : List (List Nat) := []   -- finished clusters, reversed
-  prev : Char := '-'             -- class of the previous atom
-  pictExt : Bool := false        -- current cluster matches ExtPict Extend*
-  pictZwj : Bool := false        -- … ExtPict Extend* ZWJ
-  riRun : Nat := 0               -- regional indicators directly before
-
-def segStep (cls : Nat → Char) (st : SegSt) (a : Nat) : SegSt :=
-  let c := cls a
-  let join : Bool :=
-    st.prev != '-' && st.prev != 'C' &&   -- GB4: always break after a control character
-    ((st.prev == 'L' && (c == 'L' || c == 'V')) ||
-     (st.prev == 'V' && (c == 'V' || c == 'T')) ||
-     (st.prev == 'T' && c == 'T') ||
-     c == 'E' || c == 'Z' ||
-     (st.pictZwj && c == 'P') ||
-     (st.prev == 'R' && c == 'R' && st.riRun % 2 == 1))
-  let pictExt := if c == 'P' then true else if c == 'E' then join && st.pictExt else false
-  let pictZwj := c == 'Z' && join && st.pictExt
-  let riRun := if c == 'R' then st.riRun + 1 else 0
-  if join then { st with cur := a :: st.cur, prev := c, pictExt := pictExt, pictZwj := pictZwj, riRun := riRun }
-  else { cur := [a], done := if st.cur.isEmpty then st.done else st.cur.reverse :: st.done,
-         prev := c, pictExt := pictExt, pictZwj := pictZwj, riRun := riRun }
-
-def clUax (cls : Nat → Char) (x : List Nat) : List (List Nat) :=
-  let st := x.foldl (segStep cls) {}
-  (if st.cur.isEmpty then st.done else st.cur.reverse :: st.done).reverse
 
 def St.cls (s : St) (a : Nat) : Char := s.classes.getD a 'O'
 def St.cl (s : St) : List Nat → List (List Nat) := clUax s.cls
